@@ -640,6 +640,16 @@ func (e *evalEnv) call(n *Node) *Val {
 		was := e.loadAt(a0, t)
 		e.st = save
 		return bval(e.equal(now, was))
+	case "ival":
+		// raw payload (address) of an interface value
+		x := e.eval(args[0])
+		return &Val{T: types.Typ[types.Int], L: []string{x.L[1]}}
+	case "disjoint":
+		// the element ranges of two slices do not overlap
+		a, b := e.eval(args[0]), e.eval(args[1])
+		ea := intLit(int64(slots(elemOf(a.T))))
+		eb := intLit(int64(slots(elemOf(b.T))))
+		return bval(or(eq(a.L[1], "0"), eq(b.L[1], "0"), le(add(a.L[0], mul(a.L[1], ea)), b.L[0]), le(add(b.L[0], mul(b.L[1], eb)), a.L[0])))
 	case "implies":
 		return bval(imp(e.eval(args[0]).L[0], e.eval(args[1]).L[0]))
 	}
